@@ -23,7 +23,16 @@ Inductive c19case :=
 (* a range given through constants with from > until: construction panics *)
 | CPanic (a : attr) (panicked : list bool)
 (* compile-time refusal, function form and trait form *)
-| CRefuse (a : attr) (refused_fn refused_trait : bool).
+| CRefuse (a : attr) (refused_fn refused_trait : bool)
+(* a trait-level tag_config with probe endpoints: [cfgs] = get_tag_config()
+   of the description built from the implementation and from the stub (of a
+   trait that can always be built); [refused] = per style (functions on an
+   ApiDescription carrying the declared TagConfig; trait implementation; trait
+   stub) the refused operation ids and kinds (1 at-least-one, 2 exactly-one,
+   3 invalid tag), in declaration order; [docs_same]: the three documents of
+   the always-buildable API are identical *)
+| CTagCfg (arg : option tc_arg) (eps : list attr) (cfgs : list (option tag_config))
+          (refused : list (list (str * N))) (docs_same : bool).
 
 (* ---------- verdict ---------- *)
 
@@ -57,4 +66,10 @@ Definition judge (c : c19case) : N :=
       let m' := match expand TraitImpl a with Err (CompileErrors _) => true | _ => false end in
       if bool_eqb rf m && bool_eqb rt m'
       then V_AGREE else V_DIVERGE
+  | CTagCfg arg eps cfgs refused docs_same =>
+      if negb ((length cfgs =? 2)%nat && all3 refused) then V_MALFORMED else
+      (* a declared configuration that is not in force is a violation *)
+      if spec_tagcfg arg eps cfgs refused docs_same
+      then (if model_tagcfg arg eps cfgs refused then V_AGREE else V_DIVERGE)
+      else V_VIOLATION
   end.
